@@ -264,7 +264,7 @@ pub fn parts() -> Vec<Box<dyn PartDyn>> {
     vec![Box::new(Part::<Case> {
         name: "e2e",
         rule: "programs of 1-13 ops drawn from every public entry point of Channel/Queue/Exchange/Consumer/Delivery/Get (all wrapper levels, all boolean options, arbitrary short strings, field tables, numerics; settle ops through Delivery/Get/Consumer on the same and on a different channel, all 48 settle variants also enumerated) run on the mock transport against a deterministic broker; oracle: an independently written expectation table maps each op to the exact method frames (and the return value) it must produce, the decoded wire per channel must equal their concatenation, cross-channel settles must panic and send nothing; every executed case is non-trivial, the class table counts entry point x flag vector pairs; distinct by case hash",
-        cases: |t| t.pick(700, 20_000),
+        cases: |t| t.pick(3000, 60_000),
         threads: 16,
         strategy: strat,
         exec,
